@@ -203,7 +203,7 @@ def h03b_betdaq(c):
         market = fl._add_market(cm.MID, cm.book([cm.runner(1)], version=7))
         kind = c.choose("kind", ["place", "cancel", "update"])
         outcome = c.choose("api_outcome", ["ok", "error-code", "report-missing", "BetdaqError", "Exception"])
-        poll_before = c.choose("poll_before_answer", ["none", "Unmatched", "Matched", "Cancelled"]) if kind != "place" else "none"
+        poll_before = c.choose("poll_before_answer", ["none", "Unmatched", "Unmatched-new-sequence", "Matched", "Cancelled"]) if kind != "place" else "none"
         poll_after = c.choose("poll_after_answer", ["none", "Unmatched", "Unmatched-new-sequence", "Matched", "Cancelled", "Settled"])
         c.tag("kind", kind); c.tag("outcome", outcome); c.tag("poll_before", poll_before); c.tag("poll_after", poll_after)
         tr = Trade(cm.MID, 1, 0, strategy)
@@ -214,13 +214,21 @@ def h03b_betdaq(c):
             if new_seq:
                 seq[0] += 1
             co = {"order_id": o.bet_id or 777, "customer_reference": int(o.id), "status": status, "sequence_number": seq[0], "price": 2.0,
-                  "matched_size": 10.0 if status in ("Matched", "Settled") else 0.0, "remaining_size": 0.0 if status != "Unmatched" else 10.0, "matched_price": 2.0}
+                  "matched_size": 10.0 if status in ("Matched", "Settled") else (4.0 if new_seq else 0.0),
+                  "remaining_size": 0.0 if status != "Unmatched" else (6.0 if new_seq else 10.0), "matched_price": 2.0}
             fl._process_current_orders(events.CurrentOrdersEvent([co], exchange=ExchangeType.BETDAQ))
 
         def answer(name):
             def f(**kw):
                 if poll_before != "none":
-                    poll(poll_before)
+                    st0 = o.status
+                    poll(poll_before.split("-")[0], new_seq=poll_before.endswith("new-sequence"))
+                    # one operation in flight: a poll may complete the order, it may resolve a Betdaq update (new sequence number),
+                    # it must not hand a cancel that is still outstanding back as 'executable'
+                    c.ob("poll-does-not-release-in-flight-cancel", not (st0 == S.CANCELLING and o.status == S.EXECUTABLE), before=st0.name, after=o.status.name)
+                    c.ob("poll-keeps-or-completes-or-resolves-update", o.status == st0 or o.status == S.EXECUTION_COMPLETE or
+                         (st0 == S.UPDATING and o.status == S.EXECUTABLE and poll_before.endswith("new-sequence")), before=st0.name, after=o.status.name)
+                    c.cover("poll-in-flight")
                 if outcome == "BetdaqError":
                     raise BetdaqError("scripted")
                 if outcome == "Exception":
@@ -268,12 +276,17 @@ def h03b_betdaq(c):
         c.cover("handled")
 
 
+from .c04 import h04b as _h04b  # noqa: E402  (the loop-level history harness, audited here for transitions and finality)
+
 OUT = ["K > 3 interleavings as concrete histories (covered only through the arbitrary in-flight pre-state of H03b)",
        "OrderStatus.EXPIRED is never assigned anywhere in flumine and is excluded from pre-state domains"]
 HARNESSES = [
     Harness("H03a", h03a, pattern="P2 inductive step", requires=["accepted", "rejected"], outside=OUT),
     Harness("H03b-live", h03b_live, pattern="P5 fault schedule as a variable", requires=["handled", "stream-first", "retries-exhausted", "replacement"], outside=OUT),
-    Harness("H03b-betdaq", h03b_betdaq, pattern="P5 fault schedule as a variable", requires=["handled"], outside=OUT, selfcheck=False),
+    Harness("H03b-betdaq", h03b_betdaq, pattern="P5 fault schedule as a variable", requires=["handled", "poll-in-flight"], outside=OUT, selfcheck=False),
+    Harness("H03c", _h04b, quick=dict(K=1, focus="C03", variants=("default", "no-isolation")), thorough=dict(K=2, focus="C03", variants=("default", "no-isolation")),
+            pattern="P3 bounded history through the simulation loop (transitions recorded at the write)", requires=["audited", "placed", "amended"],
+            wall_s=(300, 3000), max_paths=(400000, 6000000), selfcheck=False, outside=OUT),
     Harness("H03b-sim", h03b_sim, pattern="P5 + P2 (response vs arbitrary in-flight pre-state)", requires=["handled", "completed-meanwhile", "replacement"], outside=OUT),
 ]
 META = {"assumptions": ["handler granularity: each execute_* body is atomic"]}
